@@ -241,10 +241,31 @@ def run(ctx):
         ctx.violation("trap-default", sp_file_line(tr.term(t["otherwise"]).get("sp")),
                       "an unknown trap vector does not end in exit(0xEE) without touching the machine (writes: %s, returns: %s)" % ([w[2] for w in ws], bool(rets)))
     # each known vector goes to a distinct arm
-    ok = len({x for v, x in t["targets"]}) == len(t["targets"])
+    # ... or, where two share one (`0x20 | 0x23 => { read; if vect == 0x23 { echo } }`), the arm tests the vector again and tells them apart
+    is_vect = lambda e: bits.instr_field(e, lambda a: a[0] == "arg" and a[1] == 2) == (0, 8, False)
+    def told_apart(arm, v1, v2):
+        for bb in sorted(kit.dominated_region(tr, arm)):
+            tt = tr.term(bb)
+            if tt["k"] != "switch":
+                continue
+            c = tr.expr(tt["a"], 8)
+            if is_vect(c):
+                tg = {v: x for v, x in tt["targets"]}
+                if tg.get(v1, tt["otherwise"]) != tg.get(v2, tt["otherwise"]):
+                    return True
+            if c[0] == "bin" and c[1] in ("Eq", "Ne"):
+                for a_, b_ in ((c[2], c[3]), (c[3], c[2])):
+                    if is_vect(a_) and b_[0] == "const" and (v1 == b_[1]) != (v2 == b_[1]):
+                        return True
+        return False
+    by_arm = {}
+    for v, x in t["targets"]:
+        by_arm.setdefault(x, []).append(v)
+    shared = [(x, vs) for x, vs in sorted(by_arm.items()) if len(vs) > 1 and not all(told_apart(x, a, b_) for i_, a in enumerate(vs) for b_ in vs[i_ + 1:])]
+    ok = not shared
     ctx.oblig(ok, None)
     if not ok:
-        ctx.violation("trap-shared-arm", sp_file_line(t.get("sp")), "two trap vectors share one handler arm")
+        ctx.violation("trap-shared-arm", sp_file_line(t.get("sp")), "trap vectors %s share one handler arm that does not tell them apart" % [hex(v) for v in shared[0][1]])
     # HALT arm: pc := 0xFFFF
     halt_t = {v: x for v, x in t["targets"]}[0x25]
     reg = kit.dominated_region(tr, halt_t)
